@@ -196,6 +196,13 @@ theorem addRaw_never_panics (H : Nat → Id) (cw : Perm → Bool) (keep : Bool) 
           exact validateAll_no_panic cw keep l _ t.rootId _ inv.prevs he
         · simp
 
+/-- (fix-tree-noprev) whatever `Tree.Add` attaches has at least one previous id and all of them are
+attached: with a tree whose attached changes are reachable from the root, so are the new ones — the
+root-based full validation, iteration, heads and order ids see every attached change -/
+theorem attached_changes_have_attached_parents (att new : List Change) :
+    ∀ c ∈ (treeAdd att new).added, c.prev ≠ [] ∧ ∀ pid ∈ c.prev, hasId (treeAdd att new).attached pid = true :=
+  fun c hc => ⟨(addInv_treeAdd att new).hasPrev c hc, (addInv_treeAdd att new).prevs c hc⟩
+
 /-! ## a rejected batch is a no-op -/
 
 /-- **reject_is_noop.** Whatever the reason (bad content id, bad signature, undecodable bytes —
